@@ -246,7 +246,14 @@ fn main() {
         return;
     }
     if threads <= 1 {
+        // with markers, a record that does not finish within VERIF_HANG_SECS (default 120 s; the slowest legitimate
+        // record takes well under a second) ends the process with status 3: attributed like a process death
+        let limit: u64 = std::env::var("VERIF_HANG_SECS").ok().and_then(|s| s.parse().ok()).unwrap_or(120);
+        let dog = if markers { Some(Watchdog::start(limit)) } else { None };
         for r in &recs {
+            if let Some(d) = &dog {
+                d.tick();
+            }
             if markers {
                 // begin marker, flushed: a process death is attributed to this record
                 out.line(&json!({"begin": r["id"]}));
